@@ -12,6 +12,8 @@ package main
 // table = reference table (refTable.exec, textbook semantics); a statement that must fail
 // (duplicate PK, unique violation, NULL into NOT NULL, too long, CHECK) fails, and a failed
 // statement / aborted transaction leaves no trace.
+//
+// Uniqueness under concurrent sessions (the constraint checks are MVCC-validated reads): c12_race.go.
 
 import (
 	"fmt"
@@ -1145,13 +1147,33 @@ func runC12(r *hx.Result, rng *hx.Rng, thorough bool, replay string) error {
 			}
 		}
 	}
-	for _, k := range []string{"unit.auto", "unit.explicit", "unit.implicit-multi", "unit.aborted", "unit.committed", "mode.interleaved", "mode.goroutines", "interleaved.commit.ok"} {
+	// uniqueness under concurrent sessions (c12_race.go): scheduled interleavings, then real goroutines
+	nr, ng := 10, 3
+	if thorough {
+		nr, ng = 90, 24
+	}
+	for i := 0; i < nr+ng; i++ {
+		c := &c12Case{r: r, rng: rng.Fork()}
+		if i < nr {
+			c.runRace(thorough, i)
+		} else {
+			c.runRaceGoroutines(thorough)
+		}
+		if i%8 == 7 {
+			if err := r.Flush(); err != nil {
+				return err
+			}
+		}
+	}
+	for _, k := range []string{"unit.auto", "unit.explicit", "unit.implicit-multi", "unit.aborted", "unit.committed", "mode.interleaved", "mode.goroutines", "interleaved.commit.ok",
+		"mode.race-scheduled", "mode.race-goroutines", "race.commit.ok", "race.commit.read-conflict", "race.tuple.hot", "race.conflict.unique.detected-at-commit"} {
 		if r.Distribution[k] == 0 {
 			r.Inconclusive = append(r.Inconclusive, "generator never produced class "+k)
 		}
 	}
 	r.Notes = append(r.Notes,
 		"reference = Go interpreter with textbook constraint semantics plus the engine's documented rules (NULLs are equal in UNIQUE indexes; explicit auto-increment value must exceed the high-water mark or exist)",
-		"goroutine mode checks invariants only (the interleaving is not observable); the interleaved mode is deterministic")
+		"goroutine mode checks invariants only (the interleaving is not observable); the interleaved mode is deterministic",
+		"race modes (c12_race.go): scheduled sessions writing the same unique tuple under different keys — every acknowledged transaction is replayed on the reference at its commit point, Lean tie `c12 mv …` (statement outcomes, COMMIT decisions, committed rows); goroutine rounds — at most one acknowledged writer per contended unique tuple, table = reference + acknowledged writes")
 	return nil
 }
